@@ -28,6 +28,7 @@ import (
 	"sort"
 	"strconv"
 	"strings"
+	"time"
 
 	"github.com/itchyny/gojq"
 
@@ -397,6 +398,7 @@ func protoLine(name string, t tuple) string {
 
 func main() {
 	ctx := common.ParseFlags("C03")
+	t0 := time.Now()
 	r := ctx.R
 	core, ext := coreUniverse(), extUniverse()
 	nats := natives()
@@ -484,13 +486,19 @@ func main() {
 		}
 		os.WriteFile(d, []byte(sb.String()), 0o644)
 	}
+	tCalls := time.Now()
 	ctx.RunStream(st, lines, impl)
 	if os.Getenv("C03_STREAM_ONLY") != "" {
 		ctx.Finish()
 	}
 
+	t1 := time.Now()
 	builtinJqOracle(ctx)
+	t2 := time.Now()
 	lawsOracle(ctx)
+	ctx.Res.Notes = append(ctx.Res.Notes,
+		fmt.Sprintf("phases: native calls + carrier swap %.0fs, driver %.0fs, builtin-jq %.0fs, laws %.0fs", tCalls.Sub(t0).Seconds(), t1.Sub(tCalls).Seconds(), t2.Sub(t1).Seconds(), time.Since(t2).Seconds()),
+		"calls not made (see distribution skipped:*): string repeats above 100 kB, setpath indices in [20000, 2^29), Bessel orders |n| > 1000 — math.Jn runs a recurrence of n steps, so `gojq -n 'jn(1e12; 1.5)'` does not return in any reasonable time (observation, not judged by this check)")
 	ctx.Finish()
 }
 
